@@ -20,6 +20,8 @@ import (
 
 	"github.com/inbucket/inbucket/v3/pkg/config"
 	"github.com/inbucket/inbucket/v3/pkg/extension/event"
+	"github.com/inbucket/inbucket/v3/pkg/extension/luahost"
+	"github.com/rs/zerolog"
 	"verifharness/smtpd"
 	"verifharness/vh"
 )
@@ -281,7 +283,9 @@ func gen(g *vh.Gen) {
 		c, pool := smtpd.GenCfg(g, o)
 		stream := smtpd.GenDialogue(g, c, pool[:3], o)
 		script, ml, rl, msl := genScript(g, [][]byte{stream})
-		g.Emit("lua", append(c.Fields(), vh.H(stream), vh.HS(script), ml, rl, msl, secondRules(g, lastAddrs), secondRules(g, lastAddrs), secondMsgRules(g))...)
+		// one case in six: a third listener that allows everything, and the script loaded a second time (the Lua host moves
+		// behind the other listeners; the order of THOSE must not change)
+		g.Emit(g.Pick("lua", "lua", "lua", "lua", "lua", "luareload"), append(c.Fields(), vh.H(stream), vh.HS(script), ml, rl, msl, secondRules(g, lastAddrs), secondRules(g, lastAddrs), secondMsgRules(g))...)
 	}
 	for i := 0; i < g.N(20, 400); i++ { // concurrent sessions against one host
 		c, pool := smtpd.GenCfg(g, o)
@@ -299,7 +303,7 @@ func gen(g *vh.Gen) {
 }
 
 func exec(kind string, in []string) []string {
-	if kind != "lua" && kind != "luapar" {
+	if kind != "lua" && kind != "luapar" && kind != "luareload" {
 		return []string{"UNKNOWN-KIND"}
 	}
 	c := smtpd.ParseCfg(in[:smtpd.NFields])
@@ -362,6 +366,21 @@ func exec(kind string, in []string) []string {
 			r.Mailboxes = []string{mb}
 			return &r
 		})
+	}
+	if kind == "luareload" {
+		// a third listener that allows everything, then the script is loaded a second time on the same host:
+		// AddListener("lua", ...) removes the old entry and appends the new one behind "second" and "third"
+		env.Host.Events.BeforeMailFromAccepted.AddListener("third", func(event.SMTPSession) *event.SMTPResponse {
+			return &event.SMTPResponse{Action: event.ActionAllow}
+		})
+		env.Host.Events.BeforeRcptToAccepted.AddListener("third", func(event.SMTPSession) *event.SMTPResponse {
+			return &event.SMTPResponse{Action: event.ActionAllow}
+		})
+		if script := vh.US(in[smtpd.NFields+1]); script != "" {
+			if _, err := luahost.NewFromReader(zerolog.Nop(), env.Host, strings.NewReader(script), "verif.lua"); err != nil {
+				return []string{"SETUPERR", vh.HS("reload: " + err.Error())}
+			}
+		}
 	}
 	outs := make([][]byte, len(streams))
 	errs := make([]error, len(streams))
